@@ -985,10 +985,6 @@ pub fn exec(op: &str, a: &[&str]) -> Option<String> {
                 Err(_) => "err".to_string(),
             })
         }
-        "dur_in_year" => {
-            let e = s2e(a[0]);
-            Some(format!("ok {} {}", d2s(e.duration_in_year()), e.year()))
-        }
         _ => None,
     }
 }
